@@ -40,6 +40,8 @@ impl ProcessRegistry {
 
     pub async fn remove(&self, pid: &ExternalPid) -> Option<ProcessHandle> {
         let removed = self.by_pid.write().await.remove(pid);
+        #[cfg(edp_rs_verif)]
+        edp_client::verif::point("registry.remove.between_tables").await;
         // names registered for the process go with it, as in Erlang
         self.by_name.write().await.retain(|_, p| p != pid);
         removed
@@ -51,6 +53,8 @@ impl ProcessRegistry {
 
     pub async fn register(&self, name: Atom, pid: ExternalPid) -> Result<()> {
         let mut names = self.by_name.write().await;
+        #[cfg(edp_rs_verif)]
+        edp_client::verif::point("registry.register.locked").await;
         match names.entry(name.clone()) {
             Entry::Occupied(_) => Err(Error::NameAlreadyRegistered(name)),
             Entry::Vacant(e) => {
